@@ -25,7 +25,7 @@ func (e *Exec) freshVal(hint string, t types.Type) Val {
 
 // typeFactsGlobal asserts facts true of every well-typed Go value of this type (ranges, len >= 0).
 func (e *Exec) typeFactsGlobal(v Val) {
-	if v.GT == nil || e.binders > 0 {
+	if v.GT == nil || e.sc.binders > 0 {
 		return
 	}
 	switch u := v.GT.Underlying().(type) {
@@ -46,7 +46,7 @@ func (e *Exec) typeFactsGlobal(v Val) {
 func (e *Exec) typeFacts(st *State, v Val) { e.typeFactsGlobal(v) }
 
 func (e *Exec) lenFact(st *State, s Term) {
-	if e.binders > 0 {
+	if e.sc.binders > 0 {
 		return
 	}
 	e.sc.Assert(Ge(SlcLen(s), IntLit(0)))
@@ -425,7 +425,7 @@ func (e *Exec) fieldPath(st *State, base Val, path []int, pos token.Pos) Val {
 			}
 			// a reference stored in the heap was allocated before it was stored: it is below the
 			// allocation counter (so later allocations differ from it)
-			if viaHeap != "" && e.binders == 0 && cur.T.Sort == SInt && st.specHeaps == nil {
+			if viaHeap != "" && e.sc.binders == 0 && cur.T.Sort == SInt && st.specHeaps == nil {
 				switch f.Type().Underlying().(type) {
 				case *types.Pointer, *types.Map, *types.Chan:
 					cnt, ok := st.ghosts["alloc"]
@@ -805,9 +805,11 @@ func (e *Exec) box(st *State, v Val, iface types.Type) Val {
 	box, unbox, tag := e.boxFuncs(v.GT)
 	e.syncImplFacts()
 	b := App(SInt, box, v.T)
-	e.sc.Assert(Eq(T(v.T.Sort, fmt.Sprintf("(%s %s)", unbox, b.S)), v.T))
-	e.sc.Assert(Eq(App(SInt, e.dynTypeFn(), b), IntLit(int64(tag))))
-	e.sc.Assert(Not(Eq(b, IntLit(0))))
+	if e.sc.binders == 0 { // under a binder the value mentions bound variables: no global facts about it
+		e.sc.Assert(Eq(T(v.T.Sort, fmt.Sprintf("(%s %s)", unbox, b.S)), v.T))
+		e.sc.Assert(Eq(App(SInt, e.dynTypeFn(), b), IntLit(int64(tag))))
+		e.sc.Assert(Not(Eq(b, IntLit(0))))
+	}
 	return Val{T: b, GT: iface, Orig: v.Orig}
 }
 
